@@ -5,6 +5,13 @@ import (
 )
 
 // DebugTraces prints the trace partitions of one registry function.
+var filterKind = -1
+
+func DebugTracesKind(repo, rule, kind string) {
+	filterKind = kindOfName(kind)
+	DebugTraces(repo, rule)
+}
+
 func DebugTraces(repo, rule string) {
 	p, err := Load(Config{Repo: repo})
 	if err != nil {
@@ -22,12 +29,20 @@ func DebugTraces(repo, rule string) {
 		}
 		re := &RuleEnv{In: NewInterp(p), Kinds: anyValidKind()}
 		re.installCommonModels()
-		if _, ok := sizeSpecs[rule]; ok {
-			sizeDomain(re)
+		sizeDomain(re)
+		re.In.NoInline["valid/internal.UnsafeStr2Bytes"] = true
+		if rule == "datetime" {
+			re.In.WidenAfter = 5
 		}
 		trs := re.In.Explore(e.Fn, ruleArgs(e.Fn), 5000)
 		fmt.Printf("%s: %d traces\n", rule, len(trs))
 		for i, t := range trs {
+			if t.Converged {
+				continue
+			}
+			if k, ok := kindFromTrace(t, re.Kinds, "tv"); ok && filterKind >= 0 && k != filterKind {
+				continue
+			}
 			fmt.Printf("#%d cut=%q panic=%q pc=[%s]\n", i, t.Cut, t.Panic, t.Describe())
 			for _, w := range writesOf(t, "errBuf") {
 				fmt.Printf("    write %s %s\n", w.Class, keyOf(w.Raw))
